@@ -29,7 +29,13 @@ def run(ctx):
     s = E.summary(mcreate)
     ctx.check(s["writes"] == {(1, ("order_books", "[]", m.f_orders))} and not s["unknown"], "effects", "Market::create_order", ctx.loc(mcreate),
               "Market::create_order writes only order_books[asset].orders", "Market::create_order writes %s" % sorted(s["writes"]))
-    for owner, getter, obj in (("Env", m.env_fn, "order_book"), ("MarketEnv", m.menv_fn, "market")):
+    env_rules(ctx, m, (("Env", m.env_fn, "order_book"), ("MarketEnv", m.menv_fn, "market")))
+
+
+def env_rules(ctx, m, owners, submissions=True):
+    """effect rules of the submission functions + cached-snapshot rules, per environment type"""
+    E = m.w.effects
+    for owner, getter, obj in owners:
         step = StepShape(m, getter("step"), obj)
         qf = step.queue_field
         if qf is None:
@@ -58,8 +64,8 @@ def run(ctx):
         for f in ctx.prog.find(crate="bourse_de", adt=owner):
             if f.impl_trait is not None:
                 continue
-            for w in m.q(f).writes(field=sf):
-                if w.root[0] == "param":
+            for w in m.q(f).writes():
+                if w.root[0] == "param" and w.root[1] == 1 and w.names[:1] == [sf]:
                     writers.append((f, w))
         ok = len(writers) == 1 and writers[0][0].name == "step"
         ctx.check(ok, "snapshot", owner + "|writers", writers[0][1].loc() if writers else "-", "the cached snapshot is assigned only in step (and built in new)",
@@ -70,6 +76,12 @@ def run(ctx):
             v = w.val
             ok = v[0] == "call" and v[4] == "level_2_data" and fld(v[2][0], obj)
             ctx.check(ok, "snapshot", owner + "|source", w.loc(), "step refreshes the snapshot from self.%s.level_2_data()" % obj, "snapshot refreshed from %s" % render(v))
+            # unconditional: the only condition allowed on the refresh is "the processing loop has finished"
+            extra = [a for a in w.guards if not (a[0] == "variant" and a[2] == ("None",) and a[1][0] == "call" and a[1][4] == "next")]
+            whole = w.names == [sf]
+            ctx.check(not extra and whole and not step.q.cfg.in_loop(w.b), "snapshot", owner + "|unconditional", w.loc(),
+                      "the whole snapshot is refreshed on every step, unconditionally",
+                      "the snapshot refresh is conditional / partial: [%s] %s" % (w.gtext(), w.text()[:80]))
             after_loop = step.head is not None and w.b not in step.body and step.q.cfg.strictly_after(step.head, w.b) and not step.q.cfg.can_reach(w.b, step.head)
             last_set = [c for c in step.set_times if c.b not in step.body]
             ctx.check(after_loop and all(step.q.body.dominates(c.b, w.b) for c in last_set) and bool(last_set), "snapshot", owner + "|after-step", w.loc(),
